@@ -8,3 +8,46 @@ import "time"
 func VerifCalcInterruptInterval(timeout time.Duration, inaccuracy uint) (time.Duration, error) {
 	return calcInterruptInterval(timeout, inaccuracy)
 }
+
+// VerifStepper drives a real Discipline one method call at a time: the value is
+// built exactly like New builds it, but the main goroutine is not started.
+type VerifStepper[Type any] struct {
+	dsc *Discipline[Type]
+}
+
+func VerifNewStepper[Type any](opts Opts[Type]) (*VerifStepper[Type], error) {
+	if err := opts.isValid(); err != nil {
+		return nil, err
+	}
+
+	opts = opts.normalize()
+
+	interval, err := calcInterruptInterval(opts.Timeout, opts.TimeoutInaccuracy)
+	if err != nil {
+		return nil, err
+	}
+
+	dsc := &Discipline[Type]{
+		opts: opts,
+
+		interruptInterval: interval,
+		join:              make([]Type, 0, opts.JoinSize),
+		output:            make(chan []Type, 1+cap(opts.Input)),
+		release:           make(chan struct{}),
+	}
+
+	dsc.resetPassAt()
+
+	return &VerifStepper[Type]{dsc: dsc}, nil
+}
+
+func (stp *VerifStepper[Type]) Discipline() *Discipline[Type] { return stp.dsc }
+func (stp *VerifStepper[Type]) Process(item Type)             { stp.dsc.process(item) }
+func (stp *VerifStepper[Type]) Pass()                         { stp.dsc.pass() }
+func (stp *VerifStepper[Type]) IsTimeouted() bool             { return stp.dsc.isTimeouted() }
+func (stp *VerifStepper[Type]) SetPassAt(at time.Time)        { stp.dsc.passAt = at }
+func (stp *VerifStepper[Type]) PassAt() time.Time             { return stp.dsc.passAt }
+func (stp *VerifStepper[Type]) Buffer() []Type                { return stp.dsc.join }
+func (stp *VerifStepper[Type]) InterruptInterval() time.Duration {
+	return stp.dsc.interruptInterval
+}
